@@ -304,4 +304,18 @@ DispatchBodies(pt, c) ==
   { << >>, Zeros(8), Fill(8, 255), From(EncPacket({}, FirstOf(Tiny(NearestKind(pt, c)))), 4) }
 DispatchFrame(pt, c, body) == EncHdr(FALSE, c, pt, Len(body) \div 4) \o body
 
+
+\* ---- representative members for compound sequences (C11) ----------------------
+CpKinds ==
+  << BaseSR, BaseRR,
+     [k |-> "SDES", chunks |-> << Chunk1(1, << Item(1, 5) >>) >>],                              \* CNAME first
+     [k |-> "SDES", chunks |-> << Chunk1(1, << Item(2, 2), Item(1, 3) >>) >>],                  \* CNAME as second item
+     [k |-> "SDES", chunks |-> << Chunk1(1, << Item(2, 2) >>), Chunk1(2, << Item(1, 4) >>) >>], \* CNAME in second chunk
+     [k |-> "SDES", chunks |-> << Chunk1(1, << Item(1, 1), Item(1, 6) >>) >>],                  \* two CNAMEs
+     [k |-> "SDES", chunks |-> << Chunk1(1, << Item(2, 2) >>) >>],                              \* no CNAME
+     [k |-> "SDES", chunks |-> << >>],                                                          \* no chunks
+     BaseBYE, Fb("PLI"), BaseAPP, MkXR(<< XrB("rrt") >>), RawOf(199, 3, Ramp(4, 50)) >>
+CpSeqs(maxlen) == UNION { [1..n -> 1..Len(CpKinds)] : n \in 0..maxlen }
+CpOf(s) == [i \in 1..Len(s) |-> CpKinds[s[i]]]
+
 =============================================================================
